@@ -25,8 +25,11 @@ LEVEL_TEXT = ('Theorems (Props/C13.v): the record reader\'s seek arithmetic, tra
               'ONE3D FAMILY (one3d / humidity / vertical_diffusivity; Model/One3d.v, Proofs/One3dProofs.v; Memmap reader model with the translated record_items and time_steps expressions, reshapes / first-stamp-change / memmap size rules hand-modelled): the record reader\'s seek arithmetic is TRANSLATED from one3d/Read.py (C13_one3d_recordposition_is_spec_offset), '
               'both readers present the same cells (C13_one3d_readers_agree_on_data), the hand-modelled probing finds the layout on files with >= 2 steps '
               'and fails on single-step files (C13_one3d_probe_finds_layout, C13_one3d_probe_single_step). Tie H: constructor OC of Corr/C13.v (probe == '
-              'library header fields and step count, every getArray seek at the translated position, cells presented == words found there).')
-LEVEL_NOTE = 'Trusted: Coq kernel+vm_compute, py2coq, harness. temperature / height_pressure / wind reader pairs are compared by correspondence only.'
+              'library header fields and step count, every getArray seek at the translated position, cells presented == words found there). '
+              'TEMPERATURE and HEIGHT/PRESSURE (Model/TempHp.v, Proofs/TempHpProofs.v; layered record files over the One3d codec; both Memmap readers hand-modelled incl. the for-loop fall-through, the lazy reshapes and the marker check): height_pressure __recordposition translated (C13_heightpres_recordposition_is_spec_offset, '
+              'C13_heightpres_readers_agree_on_data); temperature position generators: start and increment translated, loop hand-modelled '
+              '(C13_temperature_surface_positions, C13_temperature_air_positions). Tie H: constructors TC / HC of Corr/C13.v.')
+LEVEL_NOTE = 'Trusted: Coq kernel+vm_compute, py2coq, harness. The wind reader pair is compared by correspondence only.'
 TECHNIQUE = 'Coq proof over source-translated arithmetic + differential correspondence of both readers'
 
 
@@ -172,6 +175,8 @@ _impl_u = impl
 def impl(case):  # noqa: F811
     if MC.is_o3(case):
         return MC.run_o3_read(case)
+    if MC.is_th(case):
+        return MC.run_th_read(case)
     if case['kind'].startswith('met-'):
         return MC.run_met(case)
     return _impl_u(case)
@@ -183,6 +188,8 @@ _coq_u = coq_term
 def coq_term(case, obs):  # noqa: F811
     if MC.is_o3(case):
         return None if 'raises' in obs else MC.o3_term_read(case, obs)
+    if MC.is_th(case):
+        return None if 'raises' in obs else MC.th_term_read(case, obs)
     if case['kind'].startswith('met-') or case['kind'] == 'uamiv-EMISSIONS-nz0':
         return None
     return _coq_u(case, obs)
